@@ -364,21 +364,22 @@ Qed.
 Lemma flat_map_singleton {A} (l : list A) : flat_map (fun x => [x]) l = l.
 Proof. induction l; simpl; congruence. Qed.
 
-Lemma modify_flat (l : list tree) P :
-  ids_consistent (flat_seq l) -> flat_seq (modify_model l P) = insert_E (flat_seq l) P.
+Lemma modify_flat (l : list tree) P kw :
+  ids_consistent (flat_seq l) -> (kw = false -> has_params P = false) ->
+  flat_seq (modify_model l P kw) = insert_E (flat_seq l) P.
 Proof.
-  intros Hc. unfold modify_model. rewrite insert_E_pieces.
-  destruct (has_params P) eqn:E.
+  intros Hc Hkw. unfold modify_model. rewrite insert_E_pieces.
+  destruct kw.
   - apply (modify_go_flat P (flat_seq l) Hc); auto. intros n tr H; discriminate.
-  - rewrite (flat_map_ext (piece P) (fun x => [x])) by (intros; now apply no_params_piece).
+  - rewrite (flat_map_ext (piece P) (fun x => [x])) by (intros; apply no_params_piece; auto).
     now rewrite flat_map_singleton.
 Qed.
 
-Lemma modify_equiv (l : list tree) P ov b :
-  ids_consistent (flat_seq l) ->
-  simulate_model (modify_model l P) ov b = simulate_model (map (@Leaf S par) (insert_E (flat_seq l) P)) ov b.
+Lemma modify_equiv (l : list tree) P kw ov b :
+  ids_consistent (flat_seq l) -> (kw = false -> has_params P = false) ->
+  simulate_model (modify_model l P kw) ov b = simulate_model (map (@Leaf S par) (insert_E (flat_seq l) P)) ov b.
 Proof.
-  intros Hc. unfold Run.simulate_model. now rewrite (modify_flat l P Hc), flat_seq_leaves.
+  intros Hc Hkw. unfold Run.simulate_model. now rewrite (modify_flat l P kw Hc Hkw), flat_seq_leaves.
 Qed.
 
 Lemma insert_E_times seq P : forall tim, adc_times_from (insert_E seq P) tim = adc_times_from seq tim.
@@ -395,10 +396,11 @@ Proof.
   destruct (is_probe i); now rewrite Hrest.
 Qed.
 
-Lemma modify_times (l : list tree) P :
-  ids_consistent (flat_seq l) -> get_adc_times (modify_model l P) = get_adc_times l.
+Lemma modify_times (l : list tree) P kw :
+  ids_consistent (flat_seq l) -> (kw = false -> has_params P = false) ->
+  get_adc_times (modify_model l P kw) = get_adc_times l.
 Proof.
-  intros Hc. unfold get_adc_times, adc_times. rewrite (modify_flat l P Hc). apply insert_E_times.
+  intros Hc Hkw. unfold get_adc_times, adc_times. rewrite (modify_flat l P kw Hc Hkw). apply insert_E_times.
 Qed.
 
 (* each element modify() returns keeps the duration of the operator it replaces *)
